@@ -117,6 +117,12 @@ def roughen(text, rnd, rel=None):
         head2 += [f"import {longer}", f"import {shorter}"]
         tail += ["", f"_prefix_probe = ({longer}.__name__, {shorter}.__name__)"]
         forms.add("plain-imports-one-name-prefix-of-the-other")
+    if r() < 0.12:
+        # a three-level plain import used only through its intermediate package, after a used sibling import
+        # of the same top-level package
+        head2 += ["import email.utils", "import email.mime.text"]
+        tail += ["", "_deep_probe = (email.utils.__name__, email.mime.__name__)"]
+        forms.add("deep-import-used-through-intermediate-package")
     for name, imp, code in special:
         if r() < 0.12 and not (name == "lambda-body" and "import-in-function" in forms):
             head2.append(imp)
@@ -301,7 +307,8 @@ def run_case(spec):
         paths.sort(key=lambda q: "bare-dot-imports-of-two-levels" not in rough[q][1])
         for path in paths[:3]:
             for f_ in rough[path][1]:
-                if f_.startswith("only-use-in-") or f_ in ("bare-dot-imports-of-two-levels", "plain-imports-one-name-prefix-of-the-other"):
+                if f_.startswith("only-use-in-") or f_ in ("bare-dot-imports-of-two-levels", "plain-imports-one-name-prefix-of-the-other",
+                                                                 "deep-import-used-through-intermediate-package"):
                     res.ev("modules_with:" + f_)
             for action in rnd.sample(ACTIONS, 3):
                 prefs = {"split_imports": rnd.random() < 0.3, "pull_imports_to_top": rnd.random() < 0.7,
